@@ -122,7 +122,7 @@ CLAIMS = {
         note="Partial at proof level: CRLF emission is checked by an oracle, not proved; the python grammar oracle is part of the check's trusted base."),
     "C20": dict(
         technique="Coq proof (the validation model accepts exactly the conjunction the statement lists; shape of a well-formed hash; configured channels and default user modes in the state model) + differential validation of generated configuration files and command lines, and start-up / -g / plain-vs-TLS runs of the real binary",
-        text="Theorems (props/C20.v): config_accept holds iff the TLS certificate and key options come together, the effective (command-line overridden) server name contains a dot, every password "
+        text="TLS CHANGES THE TRANSPORT ONLY, at model level: the transport is one flag of the connection record, fixed when the connection is accepted - no event of any connection changes a connection's host or transport flag (C20_transport_fixed_at_accept), no command of a registered connection changes its host, names, password, registration marks or transport flag (C20_commands_keep_connection_identity) - and read in one place only, WHOIS, whose answer over a secure connection is the same lines plus 671 (C20_whois_secure_adds_only_671); the number of readers is counted in the model text and in the source on every run. Theorems (props/C20.v): config_accept holds iff the TLS certificate and key options come together, the effective (command-line overridden) server name contains a dot, every password "
              "hash is 86 characters of canonical unpadded base64 (64 bytes), every operator and user name and nick passes the name validator (nicks at most 200 bytes) and every channel name the "
              "channel validator; the command line wins over the file; predefined channels exist from the start with their settings (with C16); a new user gets exactly the default user modes; the welcome burst of a completed registration is, line for line, built from the configured network, server name, MOTD, "
              "max_joins (ISUPPORT) and default modes (C20_welcome_burst). "
